@@ -252,4 +252,29 @@ PROPS = {
         "assumptions": ["no SHA-256 collisions among operation encodings of one entity (Entity.Validate checks)"],
         "gen_facts": [],
     },
+    "C07": {
+        "level_text": "FULL on the structural catalogue. The model of the read and merge path is total (no panic outcome): every malformed tree, "
+                      "pack or operation is a classified error (unknown_type_is_error, missing_type_is_error, tree_without_ops_is_error, "
+                      "tree_bad_version, local_corrupt_is_error); whatever makes the remote version invalid — unreadable, failing entity "
+                      "validation, stored under a ref that is not its id, unrelated to the local history — the merge reports invalid, leaves "
+                      "the local ref untouched and writes nothing (invalid_is_inert, invalid_keeps_local). That the Go read path has no "
+                      "explicit panic is a regenerated obligation (gen_no_panic_on_read_path). Nil dereferences cannot be seen by the "
+                      "translator: they are hunted by ~35 structural mutations x 4-6 local situations for bugs and 11 x 3 for identities, "
+                      "which found six defects, all repaired in /repo.",
+        "level_note": "Trusted: Lean kernel, extractor, harness (its independent decoder now also resolves authors and decodes each operation "
+                      "into the struct of its type). Byte-level fuzzing of blobs through encoding/json and go-crypto's armor parser is library "
+                      "code and only exercised by the catalogue's garbage blobs, not fuzzed at scale.",
+        "required_theorems": ["unknown_type_is_error", "missing_type_is_error", "tree_without_ops_is_error", "tree_bad_version",
+                              "invalid_is_inert", "invalid_keeps_local", "local_corrupt_is_error", "gen_no_panic_on_read_path"],
+        "slices": ["C07"],
+        "rule": "a catalogue of 35 structural mutations (tree entries dropped/renamed/type-confused/extra, version and clock names, pack JSON "
+                "shape, author, per-operation type and field types, empty/duplicate/second-create operations, roots) applied at a random "
+                "position of valid 1..3-commit bug histories, read locally under recover and merged from a remote ref in the situations "
+                "absent / equal-prefix / local-ahead / diverged / ref-id-mismatch / unrelated-same-id; 11 mutations of identity version "
+                "blobs and trees x {absent, local-behind, ref-id-mismatch}; the decoded commits are also `read` cases for the model; "
+                "non-trivial/distinct = distinct (mutation, head) pairs",
+        "trusted_base": [KERNEL, TIE, "model: GitBugModel.Dag (read, merge), GitBugModel.Pack (fromJ, readTree)"],
+        "assumptions": ["a crash inside MergeAll's goroutine cannot be recovered by the harness: it ends the run and is reported as the failing input (last_context.txt)"],
+        "gen_facts": ["Gen.Panics.readPath: explicit panic( calls per read-path function (all 0)"],
+    },
 }
